@@ -68,11 +68,19 @@ func pathScript(cfg *SolveCfg, p *PathResult, qs []*Query, solver string, withMo
 		}
 		sb.WriteString("(push 1)\n")
 		fmt.Fprintf(&sb, "(echo \"@@ %d\")\n", q.ItemIdx)
+		short := q.ExpectSat && !strings.HasPrefix(solver, "cvc5")
+		if short {
+			// vacuity probes (canary, requires-sat) are expected to be satisfiable: a quick "not unsat" suffices
+			sb.WriteString("(set-option :timeout 400)\n")
+		}
 		sb.WriteString("(assert (not ")
 		sb.WriteString(it.Ob.Goal)
 		sb.WriteString("))\n(check-sat)\n")
 		if withModel {
 			sb.WriteString("(get-model)\n")
+		}
+		if short {
+			fmt.Fprintf(&sb, "(set-option :timeout %d)\n", cfg.TimeoutMs)
 		}
 		sb.WriteString("(pop 1)\n")
 	}
@@ -246,6 +254,9 @@ func SolveAll(cfg *SolveCfg, results []*FuncResult) error {
 			if q.Backend == "structural" {
 				continue
 			}
+			if q.ExpectSat {
+				continue // "not proved" is the expected answer for vacuity probes
+			}
 			if q.Path == nil || (q.Status != "unsat") {
 				retry = append(retry, q)
 			}
@@ -329,6 +340,10 @@ func raceQuery(cfg *SolveCfg, q *Query, id string) {
 		q.Model = sats[0].a.model
 		q.ScriptFile = sats[0].file
 	default:
+		// third pass: no solver was definitive — retry z3 with other random seeds and a longer limit
+		if seedRetry(cfg, q, id) {
+			return
+		}
 		q.Status = "unknown"
 		q.Backend = "all"
 		var msgs []string
@@ -383,4 +398,61 @@ func MakePruner(e *Engine, workDir string, timeoutMs int) func(st *State, cond s
 		}
 		return ans[0].status != "unsat", ans[1].status != "unsat"
 	}
+}
+
+func seedRetry(cfg *SolveCfg, q *Query, id string) bool {
+	type res struct {
+		st   string
+		name string
+		dt   float64
+		file string
+		model string
+	}
+	var script string
+	if q.Path != nil {
+		script = pathScript(cfg, q.Path, []*Query{q}, "z3", true)
+	} else {
+		script = lemmaScript(cfg, q, "z3", true)
+	}
+	file := filepath.Join(cfg.WorkDir, id+".retry.smt2")
+	os.WriteFile(file, []byte(script), 0o644)
+	ctx, cancel := context.WithCancel(context.Background())
+	defer cancel()
+	seeds := []int{1, 7, 42, 1234}
+	ch := make(chan res, 2*len(seeds))
+	n := 0
+	for _, bin := range []string{"z3-new", "z3"} {
+		for _, sd := range seeds {
+			n++
+			go func(bin string, sd int) {
+				t0 := time.Now()
+				s := Solver{Name: fmt.Sprintf("%s(seed %d)", bin, sd), Cmd: func(f string, t int) []string {
+					return []string{bin, "-smt2", fmt.Sprintf("-t:%d", t), fmt.Sprintf("smt.random_seed=%d", sd), fmt.Sprintf("sat.random_seed=%d", sd), f}
+				}}
+				c2, cancel2 := context.WithTimeout(ctx, time.Duration(3*cfg.TimeoutMs+2000)*time.Millisecond)
+				ans, _, err := runSolver(c2, s, file, 3*cfg.TimeoutMs)
+				cancel2()
+				a := ans[q.ItemIdx]
+				if err != nil {
+					a.status = "error"
+				}
+				ch <- res{a.status, s.Name, time.Since(t0).Seconds(), file, a.model}
+			}(bin, sd)
+		}
+	}
+	for i := 0; i < n; i++ {
+		r := <-ch
+		if r.st == "unsat" || r.st == "sat" {
+			q.Status = r.st
+			q.Backend = map[bool]string{true: "z3-5.1.0", false: "z3-4.8.12"}[strings.HasPrefix(r.name, "z3-new")] 
+			q.Time = r.dt
+			q.Model = r.model
+			q.ScriptFile = file
+			if r.st == "unsat" {
+				os.Remove(file)
+			}
+			return true
+		}
+	}
+	return false
 }
